@@ -8,6 +8,7 @@ package main
 //                the nested round trips {time {timeformat t F Z} F Z}; every evaluation is recorded as
 //                {f, p, n, x, fmt, z, b, got, cerr, panic} for TLC (TimeCal_Trace) (B2)
 //   c18 eval   : one call, for debugging
+//   c18 hreplay, c18 stream : evaluation histories of one compiled expression, see hist.go
 
 import (
 	"encoding/json"
@@ -27,7 +28,7 @@ import (
 )
 
 func main() {
-	vh.Main(vh.Commands{"replay": c18Replay, "trace": c18Trace, "eval": c18Eval})
+	vh.Main(vh.Commands{"replay": c18Replay, "trace": c18Trace, "eval": c18Eval, "hreplay": c18HReplay, "stream": c18Stream})
 }
 
 type M = vh.M
